@@ -134,11 +134,12 @@ def r17_3(ctx):
         s = calls[0]
         if unify_args(s.value) != ["*self.args"]:
             ctx.finding(rr, site(f, s), "unify_chunks_expr is not applied to *self.args", func=f, node=s)
-        g = cfg.guards(s)
-        if not any(pol and unparse(t) == "self.align_arrays" for t, pol in g):
+        from .common import chain_conjuncts
+
+        if "self.align_arrays" not in chain_conjuncts(cfg, s):
             ctx.finding(rr, site(f, s), "unification is not conditional on self.align_arrays", func=f, node=s)
         rets = [r for r in cfg.returns if r.value is not None and not (isinstance(r.value, ast.Constant) and r.value.value is None)]
-        ok = any(any(pol and unparse(t) == "changed" for t, pol in cfg.guards(r)) for r in rets)
+        ok = any("changed" in chain_conjuncts(cfg, r) for r in rets)
         if not ok:
             ctx.finding(rr, site(f), "the node is not rebuilt with the unified operands when `changed`", func=f)
     return rr
